@@ -37,6 +37,27 @@ func init() {
 		otherKinds()
 		return ops["dscorder"](a)
 	}
+	// dscorderv: as dscorder, but every source is shown as Source_Version: several versions of one source in one set
+	ops["dscorderv"] = func(a []string) string {
+		arch := mkArch(a, 0)
+		dscs := []control.DSC{}
+		for _, text := range a[3:] {
+			d, err := control.ParseDsc(bufio.NewReader(strings.NewReader(text)), "")
+			if err != nil {
+				return "parse-error"
+			}
+			dscs = append(dscs, *d)
+		}
+		out, err := control.OrderDSCForBuild(dscs, arch)
+		if err != nil {
+			return "err"
+		}
+		names := []string{}
+		for _, d := range out {
+			names = append(names, hx(d.Source+"_"+d.Version.String()))
+		}
+		return "ok " + showList(names)
+	}
 	ops["dscorder"] = func(a []string) string {
 		arch := mkArch(a, 0)
 		dscs := []control.DSC{}
